@@ -4,3 +4,4 @@ pub mod gen;
 pub mod props;
 pub mod store_kit;
 pub mod sched;
+pub mod trk;
